@@ -198,8 +198,16 @@ func (m *mux) ensureContext(r *http.Request) (*chi.Context, bool) {
 		// already initialized: chi routes using the raw path if set
 		return ctx, r.URL.RawPath != ""
 	}
-	if !m.Router.Match(ctx, r.Method, r.URL.Path) {
+	// Not routed yet (e.g. called from a middleware): resolve the route on a
+	// scratch context so that the context chi is about to use to route the
+	// request is left untouched, using the same path chi routes on.
+	path, escaped := r.URL.Path, false
+	if r.URL.RawPath != "" {
+		path, escaped = r.URL.RawPath, true
+	}
+	tctx := chi.NewRouteContext()
+	if !m.Router.Match(tctx, r.Method, path) {
 		return nil, false // route not handled by chi
 	}
-	return ctx, false
+	return tctx, escaped
 }
